@@ -143,8 +143,40 @@ func aolRules(p *Prog, r *Report, clause string, want func(tag string) bool) *ao
 					isGenesis := c == initGen
 					isTestSupport := InPkgs(c, "types/testsuite")
 					key := kp("WMC", FuncName(a.Fn)+"<-"+FuncName(c))
+					// a transparent helper of a handler (an extracted tail of the handler): covered by the handler's own analysis, which
+					// enters such helpers — provided every caller of the helper is a handler, the genesis import or such a helper again
+					isHelper := false
+					if !isHandler && !isGenesis && p.transparent(c) {
+						isHelper = true
+						seenH := map[*ssa.Function]bool{c: true}
+						work := []*ssa.Function{c}
+						for len(work) > 0 && isHelper {
+							h := work[0]
+							work = work[1:]
+							hc, hu := p.CallersOf(h)
+							if len(hc) == 0 {
+								isHelper = false
+							}
+							for _, u := range hu {
+								if !u.Call {
+									isHelper = false
+								}
+							}
+							for _, cc := range hc {
+								switch {
+								case m.msgOf[cc] != nil || cc == initGen:
+								case p.transparent(cc) && !seenH[cc]:
+									seenH[cc] = true
+									work = append(work, cc)
+								case seenH[cc]:
+								default:
+									isHelper = false
+								}
+							}
+						}
+					}
 					switch {
-					case isHandler || isGenesis:
+					case isHandler || isGenesis || isHelper:
 						r.OK(key, "who may call an AOL store mutator: message handlers and InitGenesis only", p.FnPos(c),
 							fmt.Sprintf("%s is called by %s", FuncName(a.Fn), FuncName(c)))
 					case isTestSupport:
